@@ -44,6 +44,10 @@ impl Monitor for NoEffectMonitor {
     fn owns_divergence(&self) -> bool {
         false
     }
+    fn claims(&self, d: &engine::Divergence) -> bool {
+        // the step was predicted as a refusal and the engine saw it change handle state
+        self.snap.is_some() && (d.signature.contains("position-moved") || d.signature.contains("len-not-current") || d.signature.contains("position-mismatch"))
+    }
     fn before(&mut self, sess: &mut Session, step: &Step, _rep: &mut Report) {
         self.snap = None;
         let class: Option<String> = match step {
@@ -336,9 +340,18 @@ fn c15_case(ctx: &Ctx, rep: &mut Report, rng: &mut Rng, version: Version, done: 
     let container = if params.size < 4096 { "mini" } else { "regular" };
     let before = sess.model.dump();
     let mut lens: Vec<usize> = Vec::new();
+    let reopen_in_cycle = rng.chance(1, 4);
+    if reopen_in_cycle {
+        rep.count("cycles_with_reopen");
+    }
     for r in 0..reps {
         for step in cycle_steps(template, &params) {
             run_step(&mut sess, step, done, rep)?;
+        }
+        if reopen_in_cycle {
+            // closing and reopening the file is part of many real cycles; it does not change
+            // the logical state
+            run_step(&mut sess, Step::Reopen(if r % 2 == 0 { Mode::Permissive } else { Mode::Strict }), done, rep)?;
         }
         // the cycle must be net-zero on the logical state, else the case is a harness error
         let after = sess.model.dump();
